@@ -1,0 +1,21 @@
+//go:build verif
+
+package rueidis
+
+// VerifSubs wraps the unexported Pub/Sub subscription registry (pubsub.go) for the verification harness.
+type VerifSubs struct{ s *subs }
+
+func VerifNewSubs() *VerifSubs { return &VerifSubs{s: newSubs()} }
+
+// Subscribe returns the message channel (nil when the registry is closed) and the cancel function.
+func (v *VerifSubs) Subscribe(channels []string, fn func(PubSubSubscription)) (<-chan PubSubMessage, func()) {
+	ch, cancel := v.s.Subscribe(channels, fn)
+	if ch == nil {
+		return nil, nil
+	}
+	return ch, cancel
+}
+func (v *VerifSubs) Publish(channel string, msg PubSubMessage) { v.s.Publish(channel, msg) }
+func (v *VerifSubs) Confirm(s PubSubSubscription)              { v.s.Confirm(s) }
+func (v *VerifSubs) Unsubscribe(s PubSubSubscription)          { v.s.Unsubscribe(s) }
+func (v *VerifSubs) Close()                                    { v.s.Close() }
